@@ -24,6 +24,6 @@ PROPS = {
  "C17": dict(needs=CORE + ["HeapFacts", "Refine1", "Refine2", "RunG", "Codec", "Bits", "LinkBits", "Float", "RoundProofs", "RoundLink"], gen=["GenBitwise"], slices=[("slices_values", "c17_bits")]),
  "C18": dict(needs=CORE + ["FloatText", "FloatTextProofs", "RealText", "PrintSeq", "PrintInt", "PrintDict", "HeapFacts", "Refine1", "Refine2", "RunG", "Pure", "IOSpec", "Cli"], gen=[], slices=[("slices_values", "c18_print"), ("slices_values", "c18_cli")]),
  "C13": dict(needs=REFINE + ["RunG", "Exc", "Once", "CountDef", "Count"], gen=[], slices=[("slices_core", "c13_once"), ("slices_core", "core_programs")]),
- "C04": dict(needs=CORE + ["Events", "Progress", "NumProofs", "Lex", "ParseProofs", "LinkErr", "LinkKinds", "LinkExcept"], gen=["GenErr", "GenParse", "GenKinds"], slices=[("slices_faults", "c04_sweep"), ("slices_faults", "io_device_faults"), ("slices_faults", "nesting_ladders"), ("slices_world", "c14_faults"), ("slices_world", "c15_semantics"), ("slices_text", "c09_parse"), ("slices_core", "core_programs")]),
+ "C04": dict(needs=CORE + ["Events", "Progress", "NumProofs", "Lex", "ParseProofs", "LinkErr", "LinkKinds", "LinkExcept", "Spec", "HeapFacts", "RunG", "Exc"], gen=["GenErr", "GenParse", "GenKinds"], slices=[("slices_faults", "c04_sweep"), ("slices_faults", "io_device_faults"), ("slices_faults", "nesting_ladders"), ("slices_world", "c14_faults"), ("slices_world", "c15_semantics"), ("slices_text", "c09_parse"), ("slices_core", "core_programs")]),
  "C20": dict(needs=CORE + ["FuelMono", "Isolation", "ManySeq"], gen=["GenNondet"], slices=[("slices_world", "main_many"), ("slices_world", "c20_isolation"), ("slices_world", "c15_semantics")]),
 }
